@@ -25,14 +25,22 @@ LayerOf(z, st) == LET own == {k \in 1..Len(st) : (st[k][1] < z /\ z <= st[k][2])
 Owners(z, st) == {k \in 1..Len(st) : (st[k][1] < z /\ z <= st[k][2]) \/ (k = Len(st) /\ z = st[k][1])}
 ShapeOf(sh, nz, nf) == CASE sh[1] /\ sh[2] -> <<nz, nf>> [] sh[1] -> <<nz>> [] sh[2] -> <<nf>> [] OTHER -> <<>>
 
+(* depth_with_index(n): an index smaller than the one at the top of the range clamps to the top, one larger than
+   the index at the bottom clamps to the bottom (also beyond the asymptote n0), anything between is inverted *)
+NPositions == {"below_top", "at_top", "middle", "at_bottom", "above_bottom", "beyond_asymptote"}
+InvRegion(pos) == CASE pos = "below_top" -> "clamp_top"
+                    [] pos \in {"above_bottom", "beyond_asymptote"} -> "clamp_bottom"
+                    [] OTHER -> "inverted"
+
 Cases == [kind : {"range"}, rg : Ranges, z : Depths] \cup [kind : {"stack"}, st : Stacks, z : Depths]
-         \cup [kind : {"shape"}, sh : Shapes, rg : Ranges]
+         \cup [kind : {"shape"}, sh : Shapes, rg : Ranges] \cup [kind : {"inverse"}, rg : Ranges, pos : NPositions]
 
 Init == cs \in Cases /\ last = [op |-> "Init"]
 Dispatch == /\ last.op = "Init"
             /\ last' = CASE cs.kind = "range" -> [op |-> "Dispatch", region |-> Region(cs.z, cs.rg)]
                          [] cs.kind = "stack" -> [op |-> "Dispatch", layer |-> LayerOf(cs.z, cs.st)]
                          [] cs.kind = "shape" -> [op |-> "Dispatch", shape |-> ShapeOf(cs.sh, 3, 2)]
+                         [] cs.kind = "inverse" -> [op |-> "Dispatch", inv |-> InvRegion(cs.pos)]
             /\ UNCHANGED cs
 Next == Dispatch
 Spec == Init /\ [][Next]_vars
